@@ -1,10 +1,10 @@
 package scan
 
 import (
-	"runtime/debug"
 	"context"
 	"fmt"
 	"regexp"
+	"runtime/debug"
 	"sort"
 	"strings"
 	"testing"
@@ -32,7 +32,7 @@ type Config struct {
 	Extractors      []ExtSpec   `json:"extractors"`
 	Standalone      []StandSpec `json:"standalone,omitempty"`
 	Detectors       []DetSpec   `json:"detectors,omitempty"`
-	DirsToSkip      []string    `json:"dirs_to_skip,omitempty"`     // root-relative
+	DirsToSkip      []string    `json:"dirs_to_skip,omitempty"` // root-relative
 	SkipRegex       string      `json:"skip_regex,omitempty"`
 	SkipGlob        string      `json:"skip_glob,omitempty"`
 	UseGitignore    bool        `json:"use_gitignore,omitempty"`
@@ -50,8 +50,8 @@ type Config struct {
 	Bubble   bool `json:"bubble,omitempty"` // run inside a synctest bubble (needed for latency)
 	// Plans, when non-empty, restricts a fault/cancel-enumerating check to exactly these plans
 	// (set in replay files).
-	Plans [][]Fault `json:"plans,omitempty"`
-	Cancels []int   `json:"cancels,omitempty"`
+	Plans   [][]Fault `json:"plans,omitempty"`
+	Cancels []int     `json:"cancels,omitempty"`
 	stepCap int
 }
 
@@ -72,24 +72,24 @@ func (c *Config) Clone() *Config {
 
 // Obs is everything observed in one run.
 type Obs struct {
-	Events     []Event
-	HistFP     string
-	Extracts   []*ExtractRec
-	Pkgs       []string // identity strings in result order
-	Findings   []string
-	Statuses   []StatusObs
-	Overall    plugin.ScanStatusEnum
-	OverallMsg string
-	Fired      map[string]int
-	DetSeen    map[string][]string
-	DetCalls   map[string]int
-	StCalls    map[string]int
-	OpenLeak   int
-	Panic      string // non-empty if the engine panicked (value + site)
-	PanicStack string
-	StepCap    bool
-	SimTime    time.Duration
-	RawPkgs    []PkgObs
+	Events      []Event
+	HistFP      string
+	Extracts    []*ExtractRec
+	Pkgs        []string // identity strings in result order
+	Findings    []string
+	Statuses    []StatusObs
+	Overall     plugin.ScanStatusEnum
+	OverallMsg  string
+	Fired       map[string]int
+	DetSeen     map[string][]string
+	DetCalls    map[string]int
+	StCalls     map[string]int
+	OpenLeak    int
+	Panic       string // non-empty if the engine panicked (value + site)
+	PanicStack  string
+	StepCap     bool
+	SimTime     time.Duration
+	RawPkgs     []PkgObs
 	RawFindings []FindingObs
 }
 
